@@ -45,6 +45,8 @@ add("C08", "Hypothesis differential testing across delivery channels (format x s
     "Each generated graph is delivered through 4 drawn channels built from real files (gz/xz/zip, several files, file:// URLs, rdflib Graph objects, seven syntaxes) and the canonical document of each must equal that of the reference channel; frequency ties fall back as in C09.", "DESIGN.md 2/C08")
 add("C15", "Hypothesis differential testing: endpoint run through an in-process SPARQL evaluator vs local run; cache on vs off; query log",
     "The HTTP client is replaced from outside by an in-process evaluator that answers exactly the query text sheXer sends; the canonical document must equal the local extraction of the same graph, be independent of the cache flag, and caching must never send more queries.", "DESIGN.md 2/C15")
+add("C19", "Hypothesis-generated cases executed in fresh subprocesses under several PYTHONHASHSEED values; oracle = byte identity (canonical identity on rdflib-ordered channels)",
+    "Every generated case (NT/TSV/Turtle/rdflib/shape-map/endpoint channels) is run in separate interpreter processes with different hash seeds; the ShExC bytes and the canonical SHACL graph must be identical.  Sampling of hash seeds (4 quick / 8 thorough) is stated as the limit of the method.", "DESIGN.md 2/C19")
 
 ALL = ["C%02d" % i for i in range(1, 21)]
 def main():
